@@ -63,31 +63,44 @@ def pointTypeAttr : C11.PT → List Attr
   | .curve => [("type".toList, "curve".toList)]
   | .qcurve => [("type".toList, "qcurve".toList)]
 
-def anchorEv (f : Fmt) (a : Anchor) : Ev :=
-  .empty sAnchor (some (optAttr "name" a.name ++ [("x".toList, f.shw a.x), ("y".toList, f.shw a.y)] ++
-    optAttr "color" (a.color.map (showColor f)) ++ optAttr "identifier" a.ident))
+def anchorAttrs (f : Fmt) (a : Anchor) : List Attr :=
+  optAttr "name" a.name ++ [("x".toList, f.shw a.x), ("y".toList, f.shw a.y)] ++
+    optAttr "color" (a.color.map (showColor f)) ++ optAttr "identifier" a.ident
 
-def guidelineEv (f : Fmt) (g : Guideline) : Ev :=
-  let (x, y, d) : Option Nat × Option Nat × Option Nat := match g.line with
-    | .vertical x => (some x, none, none)
-    | .horizontal y => (none, some y, none)
-    | .angle x y d => (some x, some y, some d)
-  .empty sGuideline (some (optAttr "name" g.name ++ optAttr "x" (x.map f.shw) ++ optAttr "y" (y.map f.shw) ++
-    optAttr "angle" (d.map f.shw) ++ optAttr "color" (g.color.map (showColor f)) ++ optAttr "identifier" g.ident))
+def anchorEv (f : Fmt) (a : Anchor) : Ev := .empty sAnchor (some (anchorAttrs f a))
 
-def pointEv (f : Fmt) (p : Point) : Ev :=
-  .empty sPoint (some (optAttr "name" p.name ++ [("x".toList, f.shw p.x), ("y".toList, f.shw p.y)] ++
-    pointTypeAttr p.typ ++ (if p.smooth then [("smooth".toList, "yes".toList)] else []) ++ optAttr "identifier" p.ident))
+def lineAttrs (f : Fmt) : Line → List Attr
+  | .vertical x => [("x".toList, f.shw x)]
+  | .horizontal y => [("y".toList, f.shw y)]
+  | .angle x y d => [("x".toList, f.shw x), ("y".toList, f.shw y), ("angle".toList, f.shw d)]
+
+def guidelineAttrs (f : Fmt) (g : Guideline) : List Attr :=
+  optAttr "name" g.name ++ lineAttrs f g.line ++
+    optAttr "color" (g.color.map (showColor f)) ++ optAttr "identifier" g.ident
+
+def guidelineEv (f : Fmt) (g : Guideline) : Ev := .empty sGuideline (some (guidelineAttrs f g))
+
+def pointAttrs (f : Fmt) (p : Point) : List Attr :=
+  optAttr "name" p.name ++ [("x".toList, f.shw p.x), ("y".toList, f.shw p.y)] ++
+    pointTypeAttr p.typ ++ (if p.smooth then [("smooth".toList, "yes".toList)] else []) ++ optAttr "identifier" p.ident
+
+def pointEv (f : Fmt) (p : Point) : Ev := .empty sPoint (some (pointAttrs f p))
 
 def contourEvs (f : Fmt) (c : Contour) : List Ev :=
   .start sContour (some (optAttr "identifier" c.ident)) :: (c.points.map (pointEv f) ++ [.close sContour])
 
-def componentEv (f : Fmt) (k : Component) : Ev :=
-  .empty sComponent (some ([("base".toList, k.base)] ++ transformAttrs f k.transform ++ optAttr "identifier" k.ident))
+def componentAttrs (f : Fmt) (k : Component) : List Attr :=
+  [("base".toList, k.base)] ++ transformAttrs f k.transform ++ optAttr "identifier" k.ident
 
-def imageEv (f : Fmt) (i : Image) : Ev :=
-  .empty sImage (some ([("fileName".toList, i.fileName)] ++ transformAttrs f i.transform ++
-    optAttr "color" (i.color.map (showColor f))))
+def componentEv (f : Fmt) (k : Component) : Ev := .empty sComponent (some (componentAttrs f k))
+
+def imageAttrs (f : Fmt) (i : Image) : List Attr :=
+  [("fileName".toList, i.fileName)] ++ transformAttrs f i.transform ++ optAttr "color" (i.color.map (showColor f))
+
+def imageEv (f : Fmt) (i : Image) : Ev := .empty sImage (some (imageAttrs f i))
+
+def advanceAttrs (f : Fmt) (w h : Nat) : List Attr :=
+  (if nonZero h then [("height".toList, f.shw h)] else []) ++ (if nonZero w then [("width".toList, f.shw w)] else [])
 
 /-- `dump_object_libs` (`mod.rs:208-246`); `Dictionary::insert` replaces an existing key -/
 def dictInsert (k : Str) (v : PV) (d : Dict) : Dict :=
@@ -138,8 +151,7 @@ def encodeGlif (f : Fmt) (g : Glyph) : List Ev :=
   [.decl, .start sGlyph (some [("name".toList, g.name), ("format".toList, ['2'])])] ++
   g.codepoints.map (fun c => .empty sUnicode (some [(sHex, showCodepoint c)])) ++
   (if isNormal g.width || isNormal g.height then
-    [.empty sAdvance (some ((if nonZero g.height then [("height".toList, f.shw g.height)] else []) ++
-      (if nonZero g.width then [("width".toList, f.shw g.width)] else [])))] else []) ++
+    [.empty sAdvance (some (advanceAttrs f g.width g.height))] else []) ++
   (match g.image with | some i => [imageEv f i] | none => []) ++
   (if !g.contours.isEmpty || !g.components.isEmpty then
     .start sOutline (some []) :: (g.contours.flatMap (contourEvs f) ++ g.components.map (componentEv f) ++ [.close sOutline])
